@@ -528,4 +528,102 @@ theorem ofInt_exact (n : Int) (hn : n ≠ 0) (hlo : -9007199254740992 < n) (hhi 
 theorem ofInt_zero : ofInt 0 = .zero false := by
   unfold ofInt roundNE; simp
 
+
+/-- Rounding does not cross the double 1: a rational in (0,1) rounds to +0 (underflow) or to a
+    finite double in (0, 1]. (A special case of monotonicity, enough for C18.) -/
+theorem roundNE_small_pos (q : Rat) (h0 : 0 < q) (h1 : q < 1) :
+    roundNE q = .zero false ∨ ∃ v, roundNE q = .fin v ∧ 0 < v ∧ v ≤ 1 := by
+  have hq : q ≠ 0 := by grind
+  obtain ⟨hn, hd, hnd⟩ := pos_num_den q h0
+  obtain ⟨hl1, _⟩ := floorLog2_spec _ _ hn hd
+  have hdpos : (0 : Rat) < (q.den : Rat) := Rat.natCast_pos.mpr hd
+  rw [hnd] at hl1
+  have hl1' : pow2 (floorLog2 q.num.natAbs q.den) ≤ q := Rat.le_of_mul_le_mul_right hl1 hdpos
+  have hlneg : floorLog2 q.num.natAbs q.den < 0 := by
+    by_cases h : floorLog2 q.num.natAbs q.den < 0
+    · exact h
+    · have := pow2_le_of_le (show (0 : Int) ≤ floorLog2 q.num.natAbs q.den by omega)
+      rw [pow2_zero] at this; grind
+  have he : ulpExp q.num.natAbs q.den < 0 := by
+    unfold ulpExp precBits minExp
+    simp only
+    split <;> omega
+  have hnegf : decide (q < 0) = false := by
+    rw [decide_eq_false_iff_not]; grind
+  unfold roundNE
+  rw [if_neg hq]
+  simp only [hnegf, Bool.false_eq_true, if_false]
+  generalize ulpExp q.num.natAbs q.den = e at *
+  -- N = 2^(-e) is a natural number with N · 2^e = 1
+  have hinv := pow2_neg_mul e
+  have hQ : pow2 (-e) = ((2 ^ (-e).toNat : Nat) : Rat) := pow2_of_nonneg _ (by omega)
+  have hP := pow2_pos e
+  have hs : q / pow2 e = q * pow2 (-e) := by
+    have hPne : pow2 e ≠ 0 := by grind
+    have : q * pow2 (-e) * pow2 e = q := by rw [Rat.mul_assoc, hinv, Rat.mul_one]
+    calc q / pow2 e = (q * pow2 (-e) * pow2 e) / pow2 e := by rw [this]
+      _ = q * pow2 (-e) := Rat.mul_div_cancel hPne
+  have hNpos := pow2_pos (-e)
+  have hs0 : 0 ≤ q / pow2 e := by rw [hs]; exact Rat.le_of_lt (Rat.mul_pos h0 hNpos)
+  have hsN : q / pow2 e < pow2 (-e) := by
+    rw [hs]
+    have := Rat.mul_lt_mul_of_pos_right h1 hNpos
+    rw [Rat.one_mul] at this; exact this
+  obtain ⟨hm1, _, _⟩ := roundHalfEven_spec (q / pow2 e) hs0
+  have hmN : roundHalfEven (q / pow2 e) ≤ 2 ^ (-e).toNat := by
+    have hlt : (roundHalfEven (q / pow2 e) : Rat) < ((2 ^ (-e).toNat + 1 : Nat) : Rat) := by
+      have : ((2 ^ (-e).toNat + 1 : Nat) : Rat) = ((2 ^ (-e).toNat : Nat) : Rat) + 1 := by
+        rw [Rat.natCast_add]; rfl
+      rw [this, ← hQ]; grind
+    have := Rat.natCast_lt_natCast.mp hlt
+    omega
+  have hv1 : (roundHalfEven (q / pow2 e) : Rat) * pow2 e ≤ 1 := by
+    have h := Rat.mul_le_mul_of_nonneg_right (Rat.natCast_le_natCast.mpr hmN) (Rat.le_of_lt hP)
+    rw [← hQ, hinv] at h; exact h
+  by_cases hm0 : roundHalfEven (q / pow2 e) = 0
+  · left; rw [if_pos hm0]
+  · right
+    rw [if_neg hm0]
+    have hmpos : (0 : Rat) < (roundHalfEven (q / pow2 e) : Rat) :=
+      Rat.natCast_pos.mpr (Nat.pos_of_ne_zero hm0)
+    have hvpos := Rat.mul_pos hmpos hP
+    have hov : ¬ ((roundHalfEven (q / pow2 e) : Rat) * pow2 e ≥ overflowThreshold) := by
+      unfold overflowThreshold
+      have := pow2_lt_of_lt (show (0 : Int) < 1024 by omega)
+      rw [pow2_zero] at this; grind
+    rw [if_neg hov]
+    exact ⟨_, rfl, hvpos, hv1⟩
+
+/-- Rounding is odd: `fl(−q) = −fl(q)`. -/
+theorem roundNE_neg (q : Rat) (hq : q ≠ 0) : roundNE (-q) = neg (roundNE q) := by
+  have hnq : -q ≠ 0 := by grind
+  unfold roundNE
+  rw [if_neg hq, if_neg hnq]
+  simp only
+  by_cases h : q < 0
+  · have h1 : decide (q < 0) = true := by simpa using h
+    have h2 : decide (-q < 0) = false := by rw [decide_eq_false_iff_not]; grind
+    simp only [h1, h2, if_true, Bool.false_eq_true, if_false]
+    split
+    · rfl
+    · split
+      · rfl
+      · simp [neg]
+  · have h1 : decide (q < 0) = false := by rw [decide_eq_false_iff_not]; exact h
+    have h2 : decide (-q < 0) = true := by rw [decide_eq_true_iff]; grind
+    simp only [h1, h2, if_true, Bool.false_eq_true, if_false, Rat.neg_neg]
+    split
+    · rfl
+    · split
+      · rfl
+      · simp [neg]
+
+theorem roundNE_small_neg (q : Rat) (h0 : q < 0) (h1 : -1 < q) :
+    roundNE q = .zero true ∨ ∃ v, roundNE q = .fin v ∧ v < 0 ∧ -1 ≤ v := by
+  have hq : q = -(-q) := by grind
+  rw [hq, roundNE_neg (-q) (by grind)]
+  rcases roundNE_small_pos (-q) (by grind) (by grind) with h | ⟨v, hv, v0, v1⟩
+  · left; rw [h]; rfl
+  · right; rw [hv]; exact ⟨-v, rfl, by grind, by grind⟩
+
 end ScionTime.F64
